@@ -5,6 +5,7 @@ from __future__ import annotations
 import ast
 
 from ..core import AnalysisError, Check, norm, strip_docstring
+from ..interp import Sym, SymInterp
 from ..variants import Variant
 from .c05 import classify_reader
 
@@ -46,7 +47,7 @@ class C16(Check):
         for n in ast.walk(bm):
             if isinstance(n, ast.Assign) and isinstance(n.value, ast.Call) and isinstance(n.value.func, ast.Name) \
                     and n.value.func.id in lin.functions and len(n.value.args) == 2 and norm(n.value.args[1]) == "label_map" \
-                    and norm(n.targets[0]) == norm(n.value.args[0]):
+                    and isinstance(n.targets[0], ast.Name):
                 f = lin.functions[n.value.func.id]
                 cls_, _ = classify_reader(f, f.args.args[1].arg, f.args.args[0].arg)
                 if cls_ != "none":
@@ -79,6 +80,55 @@ class C16(Check):
         else:
             self.undecided_ob("X1", ISO, rd.name, "map-direction", rd, "reader not classifiable")
 
+        self.x2(lin, bm, q)
+        # X4: how species occurrences are expanded to label positions, read off the arguments of the padding call
+        lm_loops = [l for l in strip_docstring(bm.body) if isinstance(l, ast.For) and norm(l.iter) == "self.label_maps.items()"]
+        if not lm_loops:
+            raise AnalysisError("build_model: loop over the label maps not found")
+        o4 = SymInterp().block(lm_loops[0].body, [SymInterp().assign(lm_loops[0].target, SymInterp().item(lm_loops[0].iter, 0, Sym()), Sym())])
+
+        class Pad(SymInterp):
+            found: list = []
+
+            def text(self_i, e, st):
+                if isinstance(e, ast.Call) and norm(e.func) == "_add_label_influx_or_efflux":
+                    Pad.found.append([SymInterp.text(self_i, a_, st) for a_ in e.args])
+                return SymInterp.text(self_i, e, st)
+
+        Pad.found = []
+        Pad().block(lm_loops[0].body, [SymInterp().assign(lm_loops[0].target, SymInterp().item(lm_loops[0].iter, 0, Sym()), Sym())])
+        pad_args = Pad.found[0] if Pad.found else None
+        for i_, side in enumerate(("subs", "prods")):
+            if not pad_args or len(pad_args) < 2:
+                self.undecided_ob("X4", LIN, q, f"expansion-{side}", bm, "expansion of species occurrences to label positions not found")
+                continue
+            lc = ast.parse(pad_args[i_], mode="eval").body
+            anchor4 = [a_ for a_ in ast.walk(bm) if isinstance(a_, ast.ListComp) and "isotopomers[" in norm(a_)]
+            anchor4 = anchor4[min(i_, len(anchor4) - 1)] if anchor4 else bm
+            if not (isinstance(lc, ast.ListComp) and "isotopomers[" in norm(lc)):
+                self.undecided_ob("X4", LIN, q, f"expansion-{side}", anchor4, f"expansion `{norm(lc)[:80]}` not recognised")
+                continue
+            gens = lc.generators
+            last = norm(gens[-1].iter)
+            bound_before = {n_.id for g in gens[:-1] for n_ in ast.walk(g.target) if isinstance(n_, ast.Name)}
+            inner_ok = last.startswith("isotopomers[") and last[len("isotopomers["):-1] in bound_before and norm(lc.elt) == norm(gens[-1].target) and not any(g.ifs for g in gens)
+            if inner_ok:
+                self.holds("X4", LIN, q, f"expansion-{side}", anchor4, "occurrences (coefficient copies) in the outer loops, positions innermost")
+            else:
+                self.violated("X4", LIN, q, f"expansion-{side}", anchor4,
+                              f"`{norm(lc)[:90]}` repeats each position before moving to the next (positions are not the innermost loop): for a coefficient >= 2 the "
+                              "copies of a species are interleaved position by position instead of laid out one after the other",
+                              witness="A(4 positions) -> 2 B(2 positions): B expands to [B__0, B__0, B__1, B__1] instead of [B__0, B__1, B__0, B__1]")
+        # X3: padding, decided on the list lengths for the three orderings of (substrates, products)
+        pad = lin.func("_add_label_influx_or_efflux")
+        for side, other in (("products", "substrates"), ("substrates", "products")):
+            ok3, why3 = self.padding(pad, side, other)
+            if ok3:
+                self.holds("X3", LIN, pad.name, f"pad-{side}", pad, f"{side} padded with EXT at the end by the length difference")
+            else:
+                self.violated("X3", LIN, pad.name, f"pad-{side}", pad, f"{side} are not padded with EXT at the end up to the length of {other} ({why3})")
+
+    def x2(self, lin, bm, q) -> None:
         # X2: small functions and their use
         import sympy
 
@@ -104,72 +154,198 @@ class C16(Check):
             return cv(r[0].value), f
 
         a0, a1 = sympy.symbols("a0 a1")
+        # one iteration of the per-position loop, as path summaries
+        pos_loops = [l for l in ast.walk(bm) if isinstance(l, ast.For) and isinstance(l.iter, ast.Call) and norm(l.iter.func) == "enumerate" and l.iter.args
+                     and isinstance(l.iter.args[0], ast.Call) and norm(l.iter.args[0].func) == "zip" and len(l.iter.args[0].args) == 2]
+        if len(pos_loops) != 1:
+            self.undecided_ob("X2", LIN, q, "per-position-terms", bm, "loop over enumerate(zip(sources, products)) not found")
+            return
+        pl = pos_loops[0]
+        src_seq, dst_seq = norm(pl.iter.args[0].args[0]), norm(pl.iter.args[0].args[1])
+        SRC, DST = f"ITEM(0, {src_seq})", f"ITEM(0, {dst_seq})"
+        o2 = SymInterp().block(pl.body, [SymInterp().assign(pl.target, SymInterp().item(pl.iter, 0, Sym()), Sym())])
+        paths2 = list(o2.normal) + list(o2.continues)
+        adds = [(st, e[1]) for st in paths2 for e in st.events if e[0] == "call" and e[1].startswith("m.add_reaction(")]
+        if not adds:
+            raise AnalysisError("build_model: no path of the position loop adds a reaction")
+        fn_names = set()
+        args_ok = True
+        for st, txt in adds:
+            cn = ast.parse(txt, mode="eval").body
+            kw = {k.arg: k.value for k in cn.keywords}
+            fn_names.add(norm(kw.get("fn")))
+            if norm(kw.get("args")) != f"[{SRC}, rxn_name]":
+                args_ok = False
         calls = [c for c in ast.walk(bm) if isinstance(c, ast.Call) and norm(c.func) == "m.add_reaction"]
-        if len(calls) != 1:
-            raise AnalysisError("build_model: single m.add_reaction expected")
-        kw = {k.arg: k.value for k in calls[0].keywords}
-        fn_name = norm(kw["fn"])
+        fn_name = sorted(fn_names)[0]
         e, f = ret_expr(fn_name)
-        if sympy.simplify(e - a0 * a1) == 0 and norm(kw["args"]) == "[substrate, rxn_name]":
+        if len(fn_names) == 1 and sympy.simplify(e - a0 * a1) == 0 and args_ok:
             self.holds("X2", LIN, fn_name, "transfer-rate", f, "rate = label(substrate position) * steady-state flux")
         else:
-            self.violated("X2", LIN, fn_name, "transfer-rate", f, f"label transfer rate is `{e}` over args {norm(kw['args'])}, not label(substrate position) * flux")
-        der = {}
-        for n in ast.walk(bm):
-            if isinstance(n, ast.Assign) and isinstance(n.targets[0], ast.Subscript) and norm(n.targets[0].value) == "stoichiometry" \
-                    and isinstance(n.value, ast.Call) and norm(n.value.func) == "Derived":
-                k = {x.arg: norm(x.value) for x in n.value.keywords}
-                der[norm(n.targets[0].slice)] = (k.get("fn"), k.get("args"), n)
-        for side, want, pool in (("substrate", -1 / a0, "substrate"), ("product", 1 / a0, "product")):
-            if side not in der:
-                self.violated("X2", LIN, q, f"coefficient-{side}", bm, f"no coefficient is set for the {side} position")
-                continue
-            fnn, args, node = der[side]
-            e, f = ret_expr(fnn)
-            if sympy.simplify(e - want) == 0 and args == f"[{pool}.split('__')[0]]":
+            self.violated("X2", LIN, fn_name, "transfer-rate", f, f"label transfer rate is `{e}` over args other than [substrate position, flux], not label(substrate position) * flux")
+        # identical positions produce nothing
+        same_skipped = all(not any(e_[0] == "call" and e_[1].startswith("m.add_reaction(") for e_ in st.events)
+                           for st in paths2 if (f"{SRC} == {DST}", True) in st.conds or (f"{SRC} != {DST}", False) in st.conds)
+        for side, want, POS in (("substrate", -1 / a0, SRC), ("product", 1 / a0, DST)):
+            bad = None
+            seen = False
+            for st, _ in adds:
+                is_ext = [(c, p_) for c, p_ in st.conds if c in (f"{POS} != 'EXT'", f"{POS} == 'EXT'")]
+                tracked = bool(is_ext) and ((is_ext[-1][0].endswith("!= 'EXT'")) == is_ext[-1][1])
+                stores = [e_ for e_ in st.events if e_[0] == "store" and e_[1] == f"stoichiometry[{POS}]"]
+                if not is_ext:
+                    bad = "the position is not tested against the external source 'EXT'"
+                    continue
+                if not tracked:
+                    if stores:
+                        bad = "a coefficient is set for the external source"
+                    continue
+                seen = True
+                if len(stores) != 1:
+                    bad = f"no coefficient is set for the {side} position"
+                    continue
+                try:
+                    dn = ast.parse(stores[0][2], mode="eval").body
+                except SyntaxError:
+                    bad = "coefficient not parseable"
+                    continue
+                k = {x.arg: norm(x.value) for x in dn.keywords} if isinstance(dn, ast.Call) and norm(dn.func) == "Derived" else {}
+                pools = (f"[{POS}.split('__')[0]]", f"[{POS}.partition('__')[0]]", f"[{POS}.split('__', 1)[0]]")
+                if not k.get("fn") or k.get("args") not in pools:
+                    bad = f"coefficient of the {side} position is `{stores[0][2][:80]}`, not a function of its own compound's pool"
+                    continue
+                e, f = ret_expr(k["fn"])
+                if sympy.simplify(e - want) != 0:
+                    bad = f"coefficient of the {side} position is `{e}`, not {want} of its own pool"
+            node = [n for n in ast.walk(bm) if isinstance(n, ast.Assign) and isinstance(n.targets[0], ast.Subscript) and norm(n.targets[0].value) == "stoichiometry"]
+            node = node[0 if side == "substrate" else -1] if node else bm
+            if bad is None and seen:
                 self.holds("X2", LIN, q, f"coefficient-{side}", node, f"{want} with a0 = total pool of the {side}'s compound")
             else:
-                self.violated("X2", LIN, q, f"coefficient-{side}", node, f"coefficient of the {side} position is `{e}` of {args}, not {want} of its own pool",
+                self.violated("X2", LIN, q, f"coefficient-{side}", node, bad or f"no coefficient is set for the {side} position",
                               witness="enrichment of the product position changes at the wrong rate or with the wrong sign")
         ext = [n for n in ast.walk(bm) if isinstance(n, ast.Dict) and "'EXT'" in [norm(k) for k in n.keys if k is not None]]
         if ext and norm(dict(zip([norm(k) for k in ext[0].keys], ext[0].values))["'EXT'"]) == "external_label":
             self.holds("X2", LIN, q, "external-parameter", ext[0], "EXT parameter = external_label")
         else:
             self.violated("X2", LIN, q, "external-parameter", bm, "the EXT label source is not bound to external_label")
-        # X4
-        for side in ("subs", "prods"):
-            comps = [a for a in ast.walk(bm) if isinstance(a, ast.Assign) and norm(a.targets[0]) == side and isinstance(a.value, ast.ListComp)
-                     and "isotopomers[" in norm(a.value)]
-            if not comps:
-                self.undecided_ob("X4", LIN, q, f"expansion-{side}", bm, "expansion of species occurrences to label positions not found")
-                continue
-            lc = comps[0].value
-            gens = lc.generators
-            last = norm(gens[-1].iter)
-            dup = [a for a in ast.walk(bm) if isinstance(a, ast.Assign) and norm(a.targets[0]) == side and norm(a.value) == f"_stoichiometry_to_duplicate_list({side})"
-                   and a.lineno < comps[0].lineno]
-            occurrence_outer = len(gens) == 2 and norm(gens[0].iter) == side and last == f"isotopomers[{norm(gens[0].target)}]" and norm(lc.elt) == norm(gens[1].target)
-            if occurrence_outer and dup:
-                self.holds("X4", LIN, q, f"expansion-{side}", comps[0], "occurrences (coefficient copies) in the outer loop, positions innermost")
-            elif last.startswith("isotopomers["):
-                self.holds("X4", LIN, q, f"expansion-{side}", comps[0], "positions iterate in the innermost loop")
-            else:
-                self.violated("X4", LIN, q, f"expansion-{side}", comps[0],
-                              f"`{norm(lc)[:90]}` repeats each position before moving to the next (positions are not the innermost loop): for a coefficient >= 2 the "
-                              "copies of a species are interleaved position by position instead of laid out one after the other",
-                              witness="A(4 positions) -> 2 B(2 positions): B expands to [B__0, B__0, B__1, B__1] instead of [B__0, B__1, B__0, B__1]")
-        dl = lin.func("_stoichiometry_to_duplicate_list")
-        if "long_form.extend([k] * v)" in norm(dl) and ".items()" in norm(dl) and "sorted" not in norm(dl):
-            pass
-        # X3
-        pad = lin.func("_add_label_influx_or_efflux")
-        t = norm(pad)
-        for side, other in (("products", "substrates"), ("substrates", "products")):
-            want = f"if (diff := (len({other}) - len({side}))) > 0: {side}.extend(['EXT'] * diff)"
-            if want in t:
-                self.holds("X3", LIN, pad.name, f"pad-{side}", pad, f"{side} padded with EXT at the end by the length difference")
-            else:
-                self.violated("X3", LIN, pad.name, f"pad-{side}", pad, f"{side} are not padded with EXT at the end up to the length of {other}")
+
+    @staticmethod
+    def padding(pad: ast.FunctionDef, side: str, other: str) -> tuple[bool, str]:
+        """Length abstraction of the padding function: lists are their lengths (sympy expressions); the three orderings of the two
+        input lengths are separate cases in which every comparison the function makes is decided by sign assumptions."""
+        import sympy
+
+        n = sympy.Symbol("n", integer=True, nonnegative=True)
+        d = sympy.Symbol("d", integer=True, positive=True)
+        cases = {"longer": {side: n + d, other: n}, "shorter": {side: n, other: n + d}, "equal": {side: n, other: n}}
+        for cname, lens0 in cases.items():
+            lens = dict(lens0)
+            env: dict[str, object] = {}
+            want = sympy.Max(lens0[side], lens0[other]) if cname == "equal" else (n + d)
+
+            def ev(e):
+                if isinstance(e, ast.Constant) and isinstance(e.value, int):
+                    return sympy.Integer(e.value)
+                if isinstance(e, ast.NamedExpr):
+                    v = ev(e.value)
+                    env[e.target.id] = v
+                    return v
+                if isinstance(e, ast.Name) and e.id in env:
+                    return env[e.id]
+                if isinstance(e, ast.Call) and norm(e.func) == "len" and norm(e.args[0]) in lens:
+                    return lens[norm(e.args[0])]
+                if isinstance(e, ast.Call) and norm(e.func) in ("max", "min") and len(e.args) == 2:
+                    a_, b_ = ev(e.args[0]), ev(e.args[1])
+                    df = sympy.simplify(a_ - b_)
+                    if df.is_nonnegative:
+                        return a_ if norm(e.func) == "max" else b_
+                    if df.is_nonpositive:
+                        return b_ if norm(e.func) == "max" else a_
+                    raise ValueError("undecided max")
+                if isinstance(e, ast.Call) and norm(e.func) == "abs" and len(e.args) == 1:
+                    v = ev(e.args[0])
+                    return v if v.is_nonnegative else -v if v.is_nonpositive else sympy.Abs(v)
+                if isinstance(e, ast.BinOp) and isinstance(e.op, (ast.Add, ast.Sub)):
+                    a_, b_ = ev(e.left), ev(e.right)
+                    return a_ + b_ if isinstance(e.op, ast.Add) else a_ - b_
+                if isinstance(e, ast.UnaryOp) and isinstance(e.op, ast.USub):
+                    return -ev(e.operand)
+                raise ValueError(f"`{norm(e)}` not interpretable")
+
+            def decide(t):
+                if isinstance(t, ast.Compare) and len(t.ops) == 1:
+                    df = sympy.simplify(ev(t.left) - ev(t.comparators[0]))
+                    op = type(t.ops[0])
+                    table = {ast.Gt: (df.is_positive, df.is_nonpositive), ast.GtE: (df.is_nonnegative, df.is_negative), ast.Lt: (df.is_negative, df.is_nonnegative),
+                             ast.LtE: (df.is_nonpositive, df.is_positive), ast.Eq: (df.is_zero, df.is_nonzero), ast.NotEq: (df.is_nonzero, df.is_zero)}
+                    yes, no = table.get(op, (None, None))
+                    if yes:
+                        return True
+                    if no:
+                        return False
+                raise ValueError(f"test `{norm(t)}` not decided in case {cname}")
+
+            def pad_amount(e):
+                """['EXT'] * N -> N (clamped at 0), else None"""
+                if isinstance(e, ast.BinOp) and isinstance(e.op, ast.Mult):
+                    lst_, cnt = (e.left, e.right) if isinstance(e.left, ast.List) else (e.right, e.left)
+                    if isinstance(lst_, ast.List) and len(lst_.elts) == 1 and norm(lst_.elts[0]) == "'EXT'":
+                        v = ev(cnt)
+                        if v.is_nonnegative:
+                            return v
+                        if v.is_nonpositive:
+                            return sympy.Integer(0)
+                        raise ValueError("undecided padding amount")
+                return None
+
+            def run(stmts) -> bool:
+                """False when the function left through raise / return."""
+                for s_ in stmts:
+                    if isinstance(s_, ast.If) and not s_.orelse and s_.body and isinstance(s_.body[-1], ast.Raise) and "labelmap" in norm(s_.test):
+                        continue  # validation of the map's length: the non-raising continuation is what is analysed
+                    if isinstance(s_, ast.If):
+                        if decide(s_.test):
+                            if not run(s_.body):
+                                return False
+                        elif not run(s_.orelse):
+                            return False
+                    elif isinstance(s_, ast.Assign) and isinstance(s_.targets[0], ast.Name) and s_.targets[0].id not in lens:
+                        try:
+                            env[s_.targets[0].id] = ev(s_.value)
+                        except ValueError:
+                            pass
+                    elif isinstance(s_, ast.Expr) and isinstance(s_.value, ast.Call) and isinstance(s_.value.func, ast.Attribute) and norm(s_.value.func.value) in lens:
+                        meth = s_.value.func.attr
+                        if meth == "extend" and s_.value.args:
+                            amt = pad_amount(s_.value.args[0])
+                            if amt is None:
+                                raise ValueError(f"`{norm(s_)}` extends by something other than EXT")
+                            lens[norm(s_.value.func.value)] += amt
+                        elif meth in ("insert", "append", "pop", "remove", "clear", "reverse", "sort"):
+                            raise ValueError(f"`{norm(s_)}` changes the list other than by padding at the end")
+                    elif isinstance(s_, ast.AugAssign) and norm(s_.target) in lens and isinstance(s_.op, ast.Add):
+                        amt = pad_amount(s_.value)
+                        if amt is None:
+                            raise ValueError(f"`{norm(s_)}` extends by something other than EXT")
+                        lens[norm(s_.target)] += amt
+                    elif isinstance(s_, ast.Assign) and norm(s_.targets[0]) in lens:
+                        v_ = s_.value
+                        if isinstance(v_, ast.BinOp) and isinstance(v_.op, ast.Add) and norm(v_.left) == norm(s_.targets[0]) and pad_amount(v_.right) is not None:
+                            lens[norm(s_.targets[0])] += pad_amount(v_.right)
+                        else:
+                            raise ValueError(f"`{norm(s_)}` rebuilds the list other than by padding at the end")
+                    elif isinstance(s_, (ast.Raise, ast.Return)):
+                        return False
+                return True
+
+            try:
+                run(strip_docstring(pad.body))
+            except ValueError as e_:
+                return False, str(e_)
+            if sympy.simplify(lens[side] - want) != 0:
+                return False, f"case {side} {cname}: length becomes {lens[side]} instead of {want}"
+        return True, ""
 
     def must_fire(self):
         return [
